@@ -141,7 +141,9 @@ pub fn apply(ch: &mut Choices, buf: &mut Vec<u8>, next: Option<&[u8]>, weights: 
             } else {
                 let a = ch.pick(&attrs).clone();
                 let delta = *ch.pick(&[1i64, -1, 2, 3, 4, -4, 8, 20, 0x100, -0x100]);
-                let nl = (a.len as i64 + delta).clamp(0, 0xffff) as u16;
+                // one time in six an absolute value from the top of the 16-bit range (length + 4 does
+                // not fit in 16 bits there)
+                let nl = if ch.rare(1, 6) { *ch.pick(&[0xffffu16, 0xfffe, 0xfffd, 0xfffc, 0xfffb, 0xfff8, 0x8000, 0x7fff]) } else { (a.len as i64 + delta).clamp(0, 0xffff) as u16 };
                 buf[a.off + 2..a.off + 4].copy_from_slice(&nl.to_be_bytes());
                 true
             }
